@@ -72,6 +72,7 @@ class ValGen:
         self.r = rng
         self.d = d
         self.full = full
+        self.comparable = True   # no absent optional, no empty present optional: representable under a TL2-origin schema
 
     def prim(self, kind, nonzero=None):
         r = self.r
@@ -112,20 +113,26 @@ class ValGen:
         for f in fds:
             name, opt, isbit, ty = sx_str(f[0]), f[1] == "1", f[2] == "1", int(f[3])
             if isbit:
-                # the interpreter cannot represent a set bit (TL1 view writes an empty object, TL2 view nothing)
+                # the interpreter cannot represent a set bit (TL1 view writes an empty object, TL2 view nothing),
+                # and prints an unset TL2 `bit` as true
                 out.append("n")
+                self.comparable = False
                 continue
             if opt and not self.full and (depth > 4 or self.r.chance(1, 3)):
                 out.append("n")
+                self.comparable = False
                 continue
             if opt and depth > 7:
                 if self.full:
                     raise TooDeep()
                 out.append("n")
+                self.comparable = False
                 continue
             t, empty = self.gen(ty, depth + 1)
-            if opt and empty and self.full:
-                raise TooDeep()
+            if opt and empty:
+                if self.full:
+                    raise TooDeep()
+                self.comparable = False
             out.append(t)
             if not name.startswith("_") and (opt or not empty):
                 used = True
@@ -304,8 +311,9 @@ def run(c):
                 v = None
                 for attempt in (full, False):
                     try:
-                        v = ValGen(rng.fork(), d1, attempt).gen(d1.root)[0]
-                        full = attempt
+                        g = ValGen(rng.fork(), d1, attempt)
+                        v = g.gen(d1.root)[0]
+                        full = g.comparable
                         break
                     except (TooDeep, RecursionError, IndexError):
                         c.count("value:too-deep")
